@@ -5,10 +5,28 @@ from __future__ import annotations
 from .. import core, mdibops
 from ..mdibharness import MDIB_FILES, World
 from ..tablewalk import index_vs_scan
+from . import c11_api
 
 
 def jobs(ctx):
-    return [['mdib_walk', {'i': k, 'n': 2 if ctx.quick else 20, 'len': 40 if ctx.quick else 150}] for k in range(4 if ctx.quick else 16)]
+    q = ctx.quick
+    out = [['mdib_walk', {'i': k, 'n': 2 if q else 10, 'len': 40 if q else 150}] for k in range(4 if q else 16)]
+    out += [['mdib_consumer_reports', {'i': k, 'n': 1 if q else 6, 'rounds': 2 if q else 4}] for k in range(4 if q else 12)]
+    out += [['mdib_tables', {'i': k, 'n': 150 if q else 4000, 'len': 40}] for k in range(2 if q else 8)]
+    out += [['mdib_subs_lifecycle', {'i': k, 'flavour': f}] for f in sorted(c11_api.SUB_FLAVOURS) for k in range(1 if q else 4)]
+    return out
+
+
+def mdib_consumer_reports(ctx, arg):
+    return c11_api.consumer_reports(ctx, arg)
+
+
+def mdib_tables(ctx, arg):
+    return c11_api.mdib_tables(ctx, arg)
+
+
+def mdib_subs_lifecycle(ctx, arg):
+    return c11_api.subs_lifecycle(ctx, arg)
 
 
 def _walk(ctx, label, tables, detail):
@@ -21,33 +39,92 @@ def _walk(ctx, label, tables, detail):
                         {**detail, 'problems': problems[:3]})
 
 
+WEIGHTS = {'descr_update': 8, 'descr_create': 4, 'descr_delete': 3, 'descr_recreate': 3, 'descr_parent_child': 3, 'alert': 2, 'metric': 2,
+           'context': 3, 'location': 1, 'descr_with_state': 2,
+           # round 4: every other kind of the shared generator (rejected / aborted transactions, several descriptors in one transaction, entity
+           # interface, removal of context states - which no report can tell the consumer, its tables still have to be consistent in themselves)
+           'component': 1, 'operational': 1, 'rt': 1, 'descr_multi': 3, 'entity_stash': 1, 'entity_write_stashed': 1, 'empty': 1, 'abort': 2,
+           'unget': 1, 'reject': 3, 'descr_ctx_entity': 2, 'ctx_delete': 2}
+# own operations at fixed steps of every history (they also guarantee the reach floors), the rest is drawn
+DIRECTED = {3: 'reuse_ctx_state', 5: 'reject:ctx_handle_in_use', 6: 'alert_create', 8: 'reject:existing_descriptor', 9: 'reuse_single_state', 12: 'reuse_descriptor', 15: 'alert_create', 17: 'alert_update_inplace',
+            19: 'alert_delete', 22: 'reuse_entity', 25: 'reuse_ctx_state', 28: 'alert_create', 31: 'reuse_descriptor'}
+UNIQUE_KEY_REJECTS = ('existing_descriptor', 'ctx_handle_in_use')
+
+
 def mdib_walk(ctx: core.Ctx, arg):
     rng = ctx.rng('c11mdib', arg['i'])
-    weights = {'descr_update': 8, 'descr_create': 4, 'descr_delete': 3, 'descr_recreate': 3, 'descr_parent_child': 3, 'alert': 2, 'metric': 2,
-               'context': 3, 'location': 1, 'descr_with_state': 2}
+    c11_api.template_reuse_directed(ctx, ctx.rng('c11reuse', arg['i']), MDIB_FILES[arg['i'] % len(MDIB_FILES)])
     for hno in range(arg['n']):
         mdib_file = MDIB_FILES[(arg['i'] + hno) % len(MDIB_FILES)]
         world = World(mdib_file, role_provider=False, async_mgr=hno % 2 == 1)
         consumer, cm = world.add_consumer()
         mdib = world.mdib
+        rec = c11_api.install_recorder(mdib)
         memo = {}
+        own_memo = {}
         shapes = []
-        for step in range(arg['len']):
-            op = mdibops.gen_op(rng, mdib, memo, weights)
-            ap = mdibops.apply_op(mdib, op, memo)
-            shapes.append((op['op'], op.get('sub'), op.get('iface'), ap.outcome))
-            detail = {'mdib_file': mdib_file, 'step': step, 'op': op, 'outcome': ap.outcome}
-            opk = op['op']
-            _walk(ctx, f'provider.after_{opk}', [('provider.descriptions', mdib.descriptions), ('provider.states', mdib.states),
-                                                  ('provider.context_states', mdib.context_states)], detail)
-            _walk(ctx, f'consumer.after_{opk}', [('consumer.descriptions', cm.descriptions), ('consumer.states', cm.states),
-                                                  ('consumer.context_states', cm.context_states)], detail)
+        n_steps = arg['len']
+        directed = dict(DIRECTED)
+        directed[n_steps - 4] = 'subtree_delete_alertsystem'
+        directed[n_steps - 2] = 'subtree_delete_vmd'
+        w0 = sum(ctx.witness_counts.values())
+        for step in range(n_steps):
+            if sum(ctx.witness_counts.values()) != w0:
+                # the tables of this history are broken: everything later would only repeat the finding under other keys
+                ctx.count('mdib.histories_stopped_at_first_witness')
+                break
+            own = directed.get(step) or (rng.choice(c11_api.OWN_OPS[:7]) if step > 32 and rng.random() < 0.15 else None)
+            before = c11_api.snap3(mdib)
+            forced = None
+            if own is not None and own.startswith('reject:'):
+                cat = mdibops.catalog(mdib)
+                forced = {'op': 'reject', 'sub': own.split(':')[1], 'metric': rng.choice(cat['metric']) if cat['metric'] else None,
+                          'alert': rng.choice(cat['alert']) if cat['alert'] else None, 'context': rng.choice(cat['context']) if cat['context'] else None,
+                          'seed': rng.randrange(1 << 30), 'iface': 'classic'}
+                own = None
+            if own is not None:
+                opk = own
+                detail = {'mdib_file': mdib_file, 'step': step, 'op': {'op': own}}
+
+                def inner_walk(label, detail=detail):
+                    c11_api.walk3(ctx, f'provider.after_{label}', mdib, 'provider', detail)
+                    c11_api.walk3(ctx, f'consumer.after_{label}', cm, 'consumer', detail)
+                try:
+                    outcome = c11_api.own_op(ctx, mdib, own, rng, own_memo, inner_walk)
+                except Exception as ex:  # noqa: BLE001
+                    outcome = f'raised:{type(ex).__name__}'
+                    detail['exception'] = repr(ex)[:300]
+                    ctx.count(f'mdib.own_op_raised.{own}.{type(ex).__name__}')
+                detail['outcome'] = outcome
+                shapes.append((own, outcome))
+                label = 'template_reuse' if own.startswith('reuse_') else own
+            else:
+                op = forced or mdibops.gen_op(rng, mdib, memo, WEIGHTS)
+                ap = mdibops.apply_op(mdib, op, memo)
+                shapes.append((op['op'], op.get('sub'), op.get('iface'), ap.outcome))
+                detail = {'mdib_file': mdib_file, 'step': step, 'op': op, 'outcome': ap.outcome}
+                label = opk = op['op']
+                if op['op'] == 'reject' and op.get('sub') in UNIQUE_KEY_REJECTS and ap.outcome.startswith('raised') \
+                        and ap.outcome != 'raised:BodyAbort':
+                    ctx.count('mdib.rejected_unique_key_ops')
+                    if c11_api.snap3(mdib) != before:
+                        ctx.witness('mdib.rejected_op_changes_table.provider', 'a transaction rejected because the unique key (handle) already exists '
+                                    'does not leave the tables exactly as they were', detail)
+                if ap.outcome.startswith('raised'):
+                    ctx.count('mdib.ops_raised')
+            _walk(ctx, f'provider.after_{label}', [('provider.descriptions', mdib.descriptions), ('provider.states', mdib.states),
+                                                    ('provider.context_states', mdib.context_states)], detail)
+            _walk(ctx, f'consumer.after_{label}', [('consumer.descriptions', cm.descriptions), ('consumer.states', cm.states),
+                                                    ('consumer.context_states', cm.context_states)], detail)
+            # the objects that the transaction API handed out / took belong to the application
+            c11_api.mutate_handouts(ctx, mdib, rec, detail, step)
             if step % 10 == 5:
                 # subscription table: a second consumer subscribes / unsubscribes
                 c2, _ = world.add_consumer(with_mdib=False)
                 mgrs = list(world.provider._subscriptions_managers.values())
                 _walk(ctx, 'subscriptions.after_subscribe', [(f'subscriptions.{type(m).__name__}', m._subscriptions) for m in mgrs], detail)
-                c2.stop_all(unsubscribe=True)
+                c2.subscription_mgr.unsubscribe_all()
+                c11_api.stop_in_background(lambda c2=c2: c2.stop_all(unsubscribe=False))
                 _walk(ctx, 'subscriptions.after_unsubscribe', [(f'subscriptions.{type(m).__name__}', m._subscriptions) for m in mgrs], detail)
             # the lookups must answer like a scan for the indexed attributes touched
             for d in list(mdib.descriptions.objects)[:50]:
@@ -58,9 +135,21 @@ def mdib_walk(ctx: core.Ctx, arg):
                     ctx.count('mdib.condition_signaled_queries')
                     if got != want:
                         ctx.witness('mdib.condition_signaled_lookup', 'descriptions.condition_signaled lookup differs from a scan', detail)
-        _foreign_grouping(ctx, rng, world, cm, mdib_file)
+            # the public read-only API: pure, and answering like a scan
+            if step % 8 == 4 or step in (n_steps - 4, n_steps - 2, n_steps - 1):
+                qdetail = {'mdib_file': mdib_file, 'step': step, 'after_op': opk}
+                c11_api.run_queries(ctx, mdib, 'provider', rng, qdetail, n_handles=3 if ctx.quick else 5)
+                c11_api.run_queries(ctx, cm, 'consumer', rng, qdetail, n_handles=3 if ctx.quick else 5)
+                _walk(ctx, 'provider.after_queries', [('provider.descriptions', mdib.descriptions), ('provider.states', mdib.states),
+                                                      ('provider.context_states', mdib.context_states)], qdetail)
+                _walk(ctx, 'consumer.after_queries', [('consumer.descriptions', cm.descriptions), ('consumer.states', cm.states),
+                                                      ('consumer.context_states', cm.context_states)], qdetail)
+            if step % 16 == 12 or step == n_steps - 1:
+                c11_api.run_wire_queries(ctx, world, consumer, rng, {'mdib_file': mdib_file, 'step': step, 'after_op': opk})
+        if sum(ctx.witness_counts.values()) == w0:
+            _foreign_grouping(ctx, rng, world, cm, mdib_file)
         ctx.case(tuple(shapes))
-        world.stop()
+        c11_api.stop_in_background(world.stop)
     ctx.count('mdib.histories', arg['n'])
 
 
